@@ -79,8 +79,9 @@ Example C14_nonvacuous :
 Proof.
   split; [|split; [|split]].
   - unfold ex_seg. apply reach_put; [apply reach_del; apply reach_put; [apply reach_empty|]|];
-      unfold valid_range, pow10; cbn; lia.
-  - vm_compute. repeat split; try constructor; try exact I; try reflexivity; try discriminate; repeat constructor.
-  - vm_compute. discriminate.
+      unfold valid_range; change (pow10 8) with 100000000; lia.
+  - apply seg_boundedb_bounded. vm_compute. reflexivity.
+  - assert (H : exists r, s_root ex_seg = Some r) by (vm_compute; eexists; reflexivity).
+    destruct H as [r H]. rewrite H. discriminate.
   - vm_compute. reflexivity.
 Qed.
